@@ -415,6 +415,8 @@ def oracle_c06(s: Session):
                     fails.append((f"response {k} does not announce connection: close ({'limit' if limit_hit else 'client asked'})", "c06:close-announced"))
             if not s.closed_by_server and plan.completes():
                 fails.append((f"server did not close after request {k}", "c06:closed"))
+            if not s.closed_by_server and not plan.completes():
+                fails.append((f"the application ended request {k} without completing its response and the server did not close", "c06:aborted-not-closed"))
             if plan.completes() and s.parse_problem is None:
                 # the closing response is the last thing on the wire, whatever else the client sent after that request
                 if not resp["complete"] and s.reqs[k].method != "HEAD":
